@@ -18,7 +18,7 @@ import z3
 from .sorts import World, CheckerError, parse_source, dataclass_info, REPO
 
 EAGER_FEASIBILITY = bool(os.environ.get('VERIF_EAGER_FEAS'))
-MAX_SELF_RECURSION = 6
+MAX_SELF_RECURSION = 8
 
 
 class JobAbort(CheckerError):
@@ -26,7 +26,7 @@ class JobAbort(CheckerError):
     pass
 
 
-MAX_RECURSIVE_ACTIVATIONS = 60
+MAX_RECURSIVE_ACTIVATIONS = 200000
 _BUDGET_LOG = {} if os.environ.get('VERIF_BUDGET_LOG') else None
 if _BUDGET_LOG is not None:
     import atexit
@@ -1833,7 +1833,9 @@ class Interp:
         stack = self.__dict__.setdefault('inline_stack', [])
         mine = [nf for g, nf in stack if g.node is f.node]
         if len(mine) >= MAX_SELF_RECURSION:
-            raise CheckerError(f'{f.qualname} calls itself more than {MAX_SELF_RECURSION} levels deep while being executed in place: recursion needs a contract')
+            # recursion that follows a concrete value (a pattern, a short list) stays shallow; recursion that follows the shape of a symbolic value goes straight down
+            # on the first path and would fork without end: the whole job is not analysable
+            raise JobAbort(f'{f.qualname} calls itself more than {MAX_SELF_RECURSION} levels deep while being executed in place: recursion over symbolic data needs a contract')
         if mine:
             # self-recursion executed in place is bounded by a budget of activations per job: recursion that follows a concrete value (a pattern, a short
             # list) stays far below it, recursion that follows the shape of a symbolic value forks at every level and would not end
